@@ -1,1 +1,480 @@
-/- C11: property theorems (not built yet). -/
+/-
+  C11 — Address algebra: parse/print round trip and rectangle lattice laws.
+
+  Statement (properties.jsonl): "Every cell or range address prints to text that parses back to the same address in
+  plain, quoted-sheet and absolute ($) form, and the A1, R1C1 and (col,row) tuple notations of one location denote
+  the same address. A range enumerates exactly its height x width cells, each contained in it; intersection yields
+  exactly the common cells (or #NULL!), union the minimal bounding rectangle, both commutative, associative and
+  idempotent; offsets wrap at the sheet limits (16384 columns, 1048576 rows)."
+
+  Model: Pycel/Model/Addr.lean (excelutil.py:116-493, 533-562, 702-841 + the openpyxl helpers).  MAX_COL, MAX_ROW, the
+  column-letter limit, ERROR_CODES and the R1C1 combination table come from Generated/AddrLimits.lean, regenerated
+  from the live code on every run: `limits_spec` and every theorem that unfolds them is re-proved against the code.
+-/
+import Pycel.Lemmas.Addr
+import Pycel.Lemmas.AddrR1C1
+namespace Pycel.Addr
+
+deriving instance DecidableEq for Except
+
+/-- "the sheet limits (16384 columns, 1048576 rows)": the live table holds exactly these, and every sheet column
+    has column letters -/
+theorem limits_spec : MAX_COL = 16384 ∧ MAX_ROW = 1048576 ∧ MAX_COL ≤ COL_LIMIT := by decide
+
+/-! ### "prints to text that parses back to the same address" — building blocks -/
+
+/-- column letters (bijective base 26) read back to the index, for every index -/
+theorem C11_col_roundtrip (n : Nat) : parseCol (colLetters n) = n := parseCol_colLetters n
+
+/-- up to the limit the letters are 1–3 upper-case letters (Z/AA at 26/27, ZZ/AAA at 702/703 are inside) -/
+theorem C11_col_letters_shape (n : Nat) (h1 : 1 ≤ n) (h : n ≤ COL_LIMIT) :
+    1 ≤ (colLetters n).length ∧ (colLetters n).length ≤ 3 ∧ ∀ c ∈ colLetters n, isUpper c = true :=
+  ⟨(colLetters_length n h1 (colLimit_eq ▸ h)).1, (colLetters_length n h1 (colLimit_eq ▸ h)).2,
+    fun c hc => (colLetters_chars n c hc).2.2.2.2.2.2⟩
+
+/-- row numbers: `int(str(n)) = n`, and `str(n)` is a non-empty digit string -/
+theorem C11_dec_roundtrip (n : Nat) :
+    decVal (natStr n) = n ∧ natStr n ≠ [] ∧ ∀ c ∈ natStr n, isDigit c = true :=
+  ⟨decVal_natStr n, natStr_ne_nil n, natStr_digits n⟩
+
+/-- Excel's rule for a sheet name (the empty name stands for "no sheet") -/
+def ExcelSheet (s : Str) : Prop :=
+  s.length ≤ 31 ∧ (∀ c ∈ s, c ∉ [':', '\\', '/', '?', '*', '[', ']']) ∧ s.head? ≠ some '\'' ∧
+    s.getLast? ≠ some '\''
+
+/-- quoting (openpyxl `quote_sheetname`, doubling apostrophes) is undone by `unquote_sheetname` for EVERY name -/
+theorem C11_sheet_quote_roundtrip (s : Str) : unquoteSheetname (quoteSheetname s) = s := unquote_quoteSheetname s
+
+/-- "in plain, quoted-sheet … form": the sheet prefix written by `quote_sheet` (quoted when the name has a space)
+    and the plain prefix are split off again, for every legal sheet name without '!'.
+    PARTIAL: the full statement (every Excel-legal name) is false of code and model, see the counterexample. -/
+theorem C11_split_sheet_partial (sheet coord : Str) (hs : ExcelSheet sheet) (hb : '!' ∉ sheet)
+    (h3 : '!' ∉ coord) (h4 : '\'' ∉ coord) :
+    splitSheetname (quoteSheet sheet ++ '!' :: coord) [] = .ok (sheet, coord) ∧
+    splitSheetname (sheet ++ '!' :: coord) [] = .ok (sheet, coord) :=
+  ⟨split_quoteSheet sheet coord hb hs.2.2.1 h3 h4,
+   split_generic _ _ _ hb (unquote_plain sheet hs.2.2.1) h3 h4⟩
+
+/-- a sheet name containing '!' is legal in Excel but is cut at its first '!' (known finding `sheet.bang`) -/
+theorem C11_split_sheet_counterexample :
+    ExcelSheet "a!b".toList ∧ splitSheetname ("a!b".toList ++ '!' :: "A1".toList) [] = .error .notImplemented := by
+  refine ⟨by unfold ExcelSheet; decide, by decide⟩
+
+/-! ### round trip of whole addresses -/
+
+theorem coordinate_eq (a : Addr) : a.coordinate = coordOf cellCoord a := rfl
+theorem absCoordinate_eq (a : Addr) : a.absCoordinate = coordOf cellAbsCoord a := rfl
+
+/-- every cell (column up to ZZZ, any row ≥ 1) prints, relative and absolute, to text that parses back to it -/
+theorem C11_print_parse_cell (c r : Nat) (hc1 : 1 ≤ c) (hc : c ≤ COL_LIMIT) (hr : 1 ≤ r)
+    (anchor : Option (Nat × Nat)) :
+    create (cellCoord c r) [] anchor = .ok (.addr ⟨false, ⟨[], c, r, c, r⟩⟩) ∧
+    create (cellAbsCoord c r) [] anchor = .ok (.addr ⟨false, ⟨[], c, r, c, r⟩⟩) := by
+  have ha : Addr.Printable ⟨false, ⟨[], c, r, c, r⟩⟩ := ⟨⟨hc1, hc⟩, ⟨hc1, hc⟩, hr, hr, by simp⟩
+  have h1 := create_print cellCoord goodPrinter_rel _ ha [] [] (fun co h _ => split_none co h) anchor
+  have h2 := create_print cellAbsCoord goodPrinter_abs _ ha [] [] (fun co h _ => split_none co h) anchor
+  simpa [coordOf] using And.intro h1 h2
+
+/-- every cell or range address without a sheet: `coordinate` and `abs_coordinate` parse back to it -/
+theorem C11_print_parse_range (a : Addr) (ha : a.Printable) (hs : a.rect.sheet = []) :
+    create a.coordinate [] none = .ok (.addr a) ∧ create a.absCoordinate [] none = .ok (.addr a) := by
+  have h1 := create_print cellCoord goodPrinter_rel a ha [] [] (fun co h _ => split_none co h) none
+  have h2 := create_print cellAbsCoord goodPrinter_abs a ha [] [] (fun co h _ => split_none co h) none
+  obtain ⟨k, ⟨s, c1, r1, c2, r2⟩⟩ := a
+  simp only at hs; subst hs
+  rw [coordinate_eq, absCoordinate_eq]
+  exact ⟨by simpa using h1, by simpa using h2⟩
+
+/-- "Every cell or range address prints to text that parses back to the same address in plain, quoted-sheet and
+    absolute ($) form": `address` (= `str`), `quoted_address` and `abs_address`, for every address with 1-based
+    corners (normalised or not, columns up to ZZZ, any rows) and every Excel-legal sheet name without '!'.
+    PARTIAL (hypothesis `hb`): the full statement — every Excel-legal sheet name — is false, see the counterexample. -/
+theorem C11_print_parse_partial (a : Addr) (ha : a.Printable) (hs : ExcelSheet a.rect.sheet)
+    (hb : '!' ∉ a.rect.sheet) :
+    create a.address [] none = .ok (.addr a) ∧ create a.quotedAddress [] none = .ok (.addr a) ∧
+    create a.absAddress [] none = .ok (.addr a) := by
+  have hq := hs.2.2.1
+  have e : (⟨a.isRange, ⟨a.rect.sheet, a.rect.c1, a.rect.r1, a.rect.c2, a.rect.r2⟩⟩ : Addr) = a := by
+    obtain ⟨k, ⟨s, c1, r1, c2, r2⟩⟩ := a; rfl
+  have hquoted : ∀ pr, GoodPrinter pr →
+      create (quoteSheet a.rect.sheet ++ '!' :: coordOf pr a) [] none = .ok (.addr a) := by
+    intro pr hp
+    have := create_print pr hp a ha (quoteSheet a.rect.sheet ++ ['!']) a.rect.sheet
+      (fun co h3 h4 => by simpa using split_quoteSheet a.rect.sheet co hb hq h3 h4) none
+    rw [e] at this; simpa using this
+  refine ⟨?_, ?_, ?_⟩
+  · unfold Addr.address
+    split
+    · have := create_print cellCoord goodPrinter_rel a ha (a.rect.sheet ++ ['!']) a.rect.sheet
+        (fun co h3 h4 => by simpa using split_generic _ _ co hb (unquote_plain _ hq) h3 h4) none
+      rw [e] at this; simpa [coordinate_eq] using this
+    · rename_i h
+      have h' : a.rect.sheet = [] := by simpa using h
+      exact (C11_print_parse_range a ha h').1
+  · exact hquoted cellCoord goodPrinter_rel
+  · exact hquoted cellAbsCoord goodPrinter_abs
+
+/-- the full statement fails for an Excel-legal sheet name that contains '!' (known finding `sheet.bang`) -/
+theorem C11_print_parse_counterexample :
+    ∃ a : Addr, a.Printable ∧ ExcelSheet a.rect.sheet ∧ create a.address [] none ≠ .ok (.addr a) := by
+  refine ⟨⟨false, ⟨"a!b".toList, 1, 1, 1, 1⟩⟩, ⟨by decide, by decide, by decide, by decide, by decide⟩,
+    by unfold ExcelSheet; decide, by decide⟩
+
+/-! ### "the A1, R1C1 and (col,row) tuple notations of one location denote the same address" -/
+
+/-- absolute R1C1 text `R<r>C<c>` denotes the cell (c, r) -/
+theorem C11_r1c1_abs (c r : Nat) (hc : c ≤ COL_LIMIT) (anchor : Option (Nat × Nat)) :
+    create (r1c1Abs c r) [] anchor = .ok (.addr ⟨false, ⟨[], c, r, c, r⟩⟩) := create_r1c1Abs c r hc anchor
+
+/-- "all relative R1C1 offsets from all anchor cells": `R[dr]C[dc]` read at anchor (ac, ar) denotes the cell at
+    that offset, wrapped at the sheet limits — the same cell `address_at_offset` yields -/
+theorem C11_r1c1_rel (ac ar : Nat) (dr dc : Int) :
+    create (r1c1Rel dr dc) [] (some (ac, ar)) =
+      .ok (.addr ⟨false, ⟨[], (Cell.offset ⟨[], ac, ar⟩ dr dc).col, (Cell.offset ⟨[], ac, ar⟩ dr dc).row,
+        (Cell.offset ⟨[], ac, ar⟩ dr dc).col, (Cell.offset ⟨[], ac, ar⟩ dr dc).row⟩⟩) :=
+  create_r1c1Rel ac ar dr dc
+
+/-- one location (c, r) of the sheet, seen from any anchor of the sheet: A1, $A$1, R1C1, relative R1C1 (also with the
+    offsets shifted by a whole sheet) and the (col,row,col,row) tuple all denote the same AddressCell -/
+theorem C11_notations_agree (c r ac ar : Nat) (hc : 1 ≤ c ∧ c ≤ MAX_COL) (hr : 1 ≤ r ∧ r ≤ MAX_ROW)
+    (_hac : 1 ≤ ac ∧ ac ≤ MAX_COL) (_har : 1 ≤ ar ∧ ar ≤ MAX_ROW) :
+    let cell : Except PyErr Created := .ok (.addr ⟨false, ⟨[], c, r, c, r⟩⟩)
+    create (cellCoord c r) [] (some (ac, ar)) = cell ∧
+    create (cellAbsCoord c r) [] (some (ac, ar)) = cell ∧
+    create (r1c1Abs c r) [] (some (ac, ar)) = cell ∧
+    create (r1c1Rel ((r : Int) - ar) ((c : Int) - ac)) [] (some (ac, ar)) = cell ∧
+    create (r1c1Rel ((r : Int) - ar + MAX_ROW) ((c : Int) - ac - MAX_COL)) [] (some (ac, ar)) = cell ∧
+    (cellOfTuple [] ⟨some c, some r, some c, some r⟩).map Created.addr = cell := by
+  have hlim : c ≤ COL_LIMIT := Nat.le_trans hc.2 maxCol_le_limit
+  have e1 : incCol ac ((c : Int) - ac) = c := by
+    unfold incCol; unfold MAX_COL Gen.maxCol at *; omega
+  have e2 : incRow ar ((r : Int) - ar) = r := by
+    unfold incRow; unfold MAX_ROW Gen.maxRow at *; omega
+  have e3 : incCol ac ((c : Int) - ac - MAX_COL) = c := by
+    unfold incCol; unfold MAX_COL Gen.maxCol at *; omega
+  have e4 : incRow ar ((r : Int) - ar + MAX_ROW) = r := by
+    unfold incRow; unfold MAX_ROW Gen.maxRow at *; omega
+  have p := C11_print_parse_cell c r hc.1 hlim hr.1 (some (ac, ar))
+  refine ⟨p.1, p.2, create_r1c1Abs c r hlim _, ?_, ?_, ?_⟩
+  · rw [create_r1c1Rel, e1, e2]
+  · rw [create_r1c1Rel, e3, e4]
+  · simp [cellOfTuple, Bounds.hasNone, mkCell, Nat.not_lt.mpr hlim, Except.map]
+
+/-! ### "A range enumerates exactly its height x width cells, each contained in it" -/
+
+/-- the number of enumerated cells is height × width -/
+theorem C11_cells_count (a : Rect) (h : a.WF) : (a.cells.length : Int) = a.height * a.width := by
+  rw [height_wf a h, width_wf a h, length_cells]
+  obtain ⟨h1, h2, h3, h4⟩ := h
+  have e1 : ((a.r2 + 1 - a.r1 : Nat) : Int) = (a.r2 : Int) - a.r1 + 1 := by omega
+  have e2 : ((a.c2 + 1 - a.c1 : Nat) : Int) = (a.c2 : Int) - a.c1 + 1 := by omega
+  rw [Int.natCast_mul, e1, e2]
+
+/-- exactly the contained cells (of the range's sheet) are enumerated: each enumerated cell is contained, and
+    each contained cell is enumerated -/
+theorem C11_cells_mem (a : Rect) (c : Cell) : c ∈ a.cells ↔ (a.contains c = true ∧ c.sheet = a.sheet) :=
+  mem_cells a c
+
+/-- no cell is enumerated twice (so the count above counts distinct cells) -/
+theorem C11_cells_nodup (a : Rect) : a.cells.Nodup := nodup_cells a
+
+/-- `cols` enumerates the same cells as `rows` -/
+theorem C11_cols_same_cells (a : Rect) (c : Cell) : c ∈ a.cols.flatten ↔ c ∈ a.cells := by
+  rw [mem_cols, mem_cells]
+
+/-! ### "intersection yields exactly the common cells (or #NULL!), union the minimal bounding rectangle" -/
+
+/-- `&` of two rectangles of one sheet is never #VALUE!; a rectangle result is well-formed, on the same sheet, and
+    contains exactly the cells contained in both; a #NULL! result means there is no common cell -/
+theorem C11_inter_spec (a b : Rect) (ha : a.WF) (hb : b.WF) (hs : a.sheet = b.sheet) :
+    match a.inter b with
+    | .rect r => r.WF ∧ r.sheet = a.sheet ∧ ∀ c, r.contains c = (a.contains c && b.contains c)
+    | .null => ∀ c, ¬ (a.contains c = true ∧ b.contains c = true)
+    | .value => False := by
+  rw [inter_eq a b ha hb hs]
+  obtain ⟨h1, h2, h3, h4⟩ := ha
+  obtain ⟨g1, g2, g3, g4⟩ := hb
+  by_cases hc : max a.c1 b.c1 ≤ min a.c2 b.c2 ∧ max a.r1 b.r1 ≤ min a.r2 b.r2
+  · rw [if_pos hc]
+    refine ⟨by unfold Rect.WF; simp only; omega, rfl, ?_⟩
+    intro c
+    rw [Bool.eq_iff_iff]
+    simp only [Bool.and_eq_true, contains_iff]
+    omega
+  · rw [if_neg hc]
+    intro c
+    simp only [contains_iff]
+    omega
+
+/-- `&` is #NULL! exactly when the rectangles have no common cell -/
+theorem C11_inter_null_iff (a b : Rect) (ha : a.WF) (hb : b.WF) (hs : a.sheet = b.sheet) :
+    a.inter b = .null ↔ ¬ ∃ c, a.contains c = true ∧ b.contains c = true := by
+  rw [inter_eq a b ha hb hs]
+  obtain ⟨h1, h2, h3, h4⟩ := ha
+  obtain ⟨g1, g2, g3, g4⟩ := hb
+  split
+  · rename_i hc
+    simp only [reduceCtorEq, false_iff, Classical.not_not]
+    refine ⟨⟨a.sheet, max a.c1 b.c1, max a.r1 b.r1⟩, ?_⟩
+    simp only [contains_iff]; omega
+  · rename_i hc
+    simp only [true_iff, not_exists, contains_iff]
+    intro c; omega
+
+/-- the cells of the intersection are exactly the common cells -/
+theorem C11_inter_cells (a b r : Rect) (ha : a.WF) (hb : b.WF) (hs : a.sheet = b.sheet)
+    (h : a.inter b = .rect r) (c : Cell) : c ∈ r.cells ↔ c ∈ a.cells ∧ c ∈ b.cells := by
+  have := C11_inter_spec a b ha hb hs
+  rw [h] at this
+  obtain ⟨_, hsh, hc⟩ := this
+  simp only [mem_cells, hc c, Bool.and_eq_true, hsh, ← hs]
+  constructor
+  · rintro ⟨⟨x, y⟩, z⟩; exact ⟨⟨x, z⟩, ⟨y, z⟩⟩
+  · rintro ⟨⟨x, z⟩, ⟨y, _⟩⟩; exact ⟨⟨x, y⟩, z⟩
+
+/-- `**` of two rectangles of one sheet is a well-formed rectangle containing both -/
+theorem C11_union_bounding (a b : Rect) (ha : a.WF) (hb : b.WF) (hs : a.sheet = b.sheet) :
+    ∃ r, a.union b = .rect r ∧ r.WF ∧ r.sheet = a.sheet ∧
+      (∀ c, a.contains c = true → r.contains c = true) ∧ (∀ c, b.contains c = true → r.contains c = true) := by
+  refine ⟨_, union_eq a b ha hb hs, ?_, rfl, ?_, ?_⟩
+  · obtain ⟨h1, h2, h3, h4⟩ := ha
+    obtain ⟨g1, g2, g3, g4⟩ := hb
+    unfold Rect.WF; simp only; omega
+  · intro c; simp only [contains_iff]; omega
+  · intro c; simp only [contains_iff]; omega
+
+/-- … and it is the least such: any rectangle that contains every cell of `a` and of `b` contains the union -/
+theorem C11_union_least (a b s r : Rect) (ha : a.WF) (hb : b.WF) (hs : a.sheet = b.sheet)
+    (h : a.union b = .rect r)
+    (hsa : ∀ c, a.contains c = true → s.contains c = true) (hsb : ∀ c, b.contains c = true → s.contains c = true) :
+    ∀ c, r.contains c = true → s.contains c = true := by
+  rw [union_eq a b ha hb hs] at h
+  injection h with h; subst h
+  obtain ⟨h1, h2, h3, h4⟩ := ha
+  obtain ⟨g1, g2, g3, g4⟩ := hb
+  have a1 := hsa ⟨[], a.c1, a.r1⟩; have a2 := hsa ⟨[], a.c2, a.r2⟩
+  have b1 := hsb ⟨[], b.c1, b.r1⟩; have b2 := hsb ⟨[], b.c2, b.r2⟩
+  simp only [contains_iff] at a1 a2 b1 b2 ⊢
+  intro c hc
+  omega
+
+/-! ### "both commutative, associative and idempotent" -/
+
+/-- sequencing of `&` / `**`: an error result (#NULL!, #VALUE!) of the first operation is the result -/
+def Res.andThen (x : Res) (f : Rect → Res) : Res :=
+  match x with
+  | .rect r => f r
+  | e => e
+
+theorem C11_inter_comm (a b : Rect) (ha : a.WF) (hb : b.WF) (hs : a.sheet = b.sheet) :
+    a.inter b = b.inter a := by
+  rw [inter_eq a b ha hb hs, inter_eq b a hb ha hs.symm]
+  simp only [Nat.max_comm b.c1, Nat.max_comm b.r1, Nat.min_comm b.c2, Nat.min_comm b.r2, hs]
+
+theorem C11_union_comm (a b : Rect) (ha : a.WF) (hb : b.WF) (hs : a.sheet = b.sheet) :
+    a.union b = b.union a := by
+  rw [union_eq a b ha hb hs, union_eq b a hb ha hs.symm]
+  simp only [Nat.max_comm b.c2, Nat.max_comm b.r2, Nat.min_comm b.c1, Nat.min_comm b.r1, hs]
+
+theorem C11_inter_idem (a : Rect) (ha : a.WF) : a.inter a = .rect a := by
+  rw [inter_eq a a ha ha rfl]
+  obtain ⟨h1, h2, h3, h4⟩ := ha
+  simp only [Nat.max_self, Nat.min_self]
+  rw [if_pos ⟨h2, h4⟩]
+
+theorem C11_union_idem (a : Rect) (ha : a.WF) : a.union a = .rect a := by
+  rw [union_eq a a ha ha rfl]
+  simp only [Nat.max_self, Nat.min_self]
+
+/-- `(a & b) & c = a & (b & c)`, #NULL! intermediates included (an empty intermediate makes both sides #NULL!) -/
+theorem C11_inter_assoc (a b c : Rect) (ha : a.WF) (hb : b.WF) (hc : c.WF) (hab : a.sheet = b.sheet)
+    (hbc : b.sheet = c.sheet) :
+    (a.inter b).andThen (fun r => r.inter c) = (b.inter c).andThen (fun r => a.inter r) := by
+  rw [inter_eq a b ha hb hab, inter_eq b c hb hc hbc]
+  obtain ⟨h1, h2, h3, h4⟩ := ha
+  obtain ⟨g1, g2, g3, g4⟩ := hb
+  obtain ⟨k1, k2, k3, k4⟩ := hc
+  by_cases p : max a.c1 b.c1 ≤ min a.c2 b.c2 ∧ max a.r1 b.r1 ≤ min a.r2 b.r2 <;>
+  by_cases q : max b.c1 c.c1 ≤ min b.c2 c.c2 ∧ max b.r1 c.r1 ≤ min b.r2 c.r2
+  · have wab : Rect.WF ⟨a.sheet, max a.c1 b.c1, max a.r1 b.r1, min a.c2 b.c2, min a.r2 b.r2⟩ := by
+      unfold Rect.WF; simp only; omega
+    have wbc : Rect.WF ⟨b.sheet, max b.c1 c.c1, max b.r1 c.r1, min b.c2 c.c2, min b.r2 c.r2⟩ := by
+      unfold Rect.WF; simp only; omega
+    rw [if_pos p, if_pos q]
+    simp only [Res.andThen]
+    rw [inter_eq _ c wab ⟨k1, k2, k3, k4⟩ (hab.trans hbc), inter_eq a _ ⟨h1, h2, h3, h4⟩ wbc hab]
+    simp only
+    simp only [Nat.max_assoc, Nat.min_assoc]
+  · have wab : Rect.WF ⟨a.sheet, max a.c1 b.c1, max a.r1 b.r1, min a.c2 b.c2, min a.r2 b.r2⟩ := by
+      unfold Rect.WF; simp only; omega
+    rw [if_pos p, if_neg q]
+    simp only [Res.andThen]
+    rw [inter_eq _ c wab ⟨k1, k2, k3, k4⟩ (hab.trans hbc)]
+    simp only
+    rw [if_neg (by omega)]
+  · have wbc : Rect.WF ⟨b.sheet, max b.c1 c.c1, max b.r1 c.r1, min b.c2 c.c2, min b.r2 c.r2⟩ := by
+      unfold Rect.WF; simp only; omega
+    rw [if_neg p, if_pos q]
+    simp only [Res.andThen]
+    rw [inter_eq a _ ⟨h1, h2, h3, h4⟩ wbc hab]
+    simp only
+    rw [if_neg (by omega)]
+  · rw [if_neg p, if_neg q]
+    rfl
+
+/-- `(a ** b) ** c = a ** (b ** c)` -/
+theorem C11_union_assoc (a b c : Rect) (ha : a.WF) (hb : b.WF) (hc : c.WF) (hab : a.sheet = b.sheet)
+    (hbc : b.sheet = c.sheet) :
+    (a.union b).andThen (fun r => r.union c) = (b.union c).andThen (fun r => a.union r) := by
+  obtain ⟨r1, e1, w1, s1, _⟩ := C11_union_bounding a b ha hb hab
+  obtain ⟨r2, e2, w2, s2, _⟩ := C11_union_bounding b c hb hc hbc
+  rw [e1, e2]
+  rw [union_eq a b ha hb hab] at e1
+  rw [union_eq b c hb hc hbc] at e2
+  injection e1 with e1; subst e1
+  injection e2 with e2; subst e2
+  simp only [Res.andThen]
+  rw [union_eq _ c w1 hc (by simp only; exact hab.trans hbc), union_eq a _ ha w2 (by simp only; exact hab)]
+  simp only [Res.rect.injEq, Rect.mk.injEq, true_and]
+  omega
+
+/-! ### the same laws at the level of the operators (`&`, `**` on address objects and error values) -/
+
+def Rect.op (i : Bool) (a b : Rect) : Res := if i then a.inter b else a.union b
+
+theorem toAddr_size (r : Rect) (h : r.WF) : r.toAddr.height = r.height ∧ r.toAddr.width = r.width := by
+  rw [height_wf r h, width_wf r h]
+  obtain ⟨h1, h2, h3, h4⟩ := h
+  unfold Addr.height Addr.width Rect.toAddr
+  by_cases e : r.c1 = r.c2 ∧ r.r1 = r.r2
+  · simp [e.1, e.2]
+  · have : (r.c1 = r.c2 && r.r1 = r.r2) = false := by simpa using e
+    simp only [this, Bool.not_false, ↓reduceIte]
+    rw [height_wf r ⟨h1, h2, h3, h4⟩, width_wf r ⟨h1, h2, h3, h4⟩]; simp
+
+theorem op_spec (i : Bool) (a b : Rect) (ha : a.WF) (hb : b.WF) (hs : a.sheet = b.sheet)
+    (la : a.c2 ≤ COL_LIMIT) (lb : b.c2 ≤ COL_LIMIT) :
+    a.op i b ≠ .value ∧ ∀ r, a.op i b = .rect r → r.WF ∧ r.sheet = a.sheet ∧ r.c1 ≤ COL_LIMIT ∧ r.c2 ≤ COL_LIMIT := by
+  obtain ⟨h1, h2, h3, h4⟩ := ha
+  obtain ⟨g1, g2, g3, g4⟩ := hb
+  cases i
+  · simp only [Rect.op, Bool.false_eq_true, ↓reduceIte]
+    rw [union_eq a b ⟨h1, h2, h3, h4⟩ ⟨g1, g2, g3, g4⟩ hs]
+    refine ⟨by simp, ?_⟩
+    intro r hr; injection hr with hr; subst hr
+    refine ⟨by unfold Rect.WF; simp only; omega, rfl, by simp only; omega, by simp only; omega⟩
+  · simp only [Rect.op, ↓reduceIte]
+    rw [inter_eq a b ⟨h1, h2, h3, h4⟩ ⟨g1, g2, g3, g4⟩ hs]
+    split
+    · refine ⟨by simp, ?_⟩
+      intro r hr; injection hr with hr; subst hr
+      refine ⟨by unfold Rect.WF; simp only; omega, rfl, by simp only; omega, by simp only; omega⟩
+    · refine ⟨by simp, ?_⟩
+      intro r hr; cases hr
+
+theorem combine_toAddr (i : Bool) (a b : Rect) (ha : a.WF) (hb : b.WF) (hs : a.sheet = b.sheet)
+    (la : a.c2 ≤ COL_LIMIT) (lb : b.c2 ≤ COL_LIMIT) :
+    Operand.combine i (.addr a.toAddr) (.addr b.toAddr) = .ok (a.op i b).toOperand := by
+  have sp := op_spec i a b ha hb hs la lb
+  have e : combineCore i a b a.toAddr.height a.toAddr.width b.toAddr.height b.toAddr.width = a.op i b := by
+    rw [(toAddr_size a ha).1, (toAddr_size a ha).2, (toAddr_size b hb).1, (toAddr_size b hb).2]
+    cases i <;> rfl
+  simp only [Operand.combine, Addr.combine]
+  have e' : combineCore i a.toAddr.rect b.toAddr.rect a.toAddr.height a.toAddr.width b.toAddr.height
+      b.toAddr.width = a.op i b := e
+  rw [e']
+  cases hop : a.op i b with
+  | rect r =>
+    have := sp.2 r hop
+    simp only
+    rw [if_neg (by omega)]
+  | null => rfl
+  | value => rfl
+
+theorem chainL (i : Bool) (x : Res) (c : Rect) (hc : c.WF) (lc : c.c2 ≤ COL_LIMIT)
+    (hx : ∀ r, x = .rect r → r.WF ∧ r.sheet = c.sheet ∧ r.c2 ≤ COL_LIMIT) :
+    Operand.combine i x.toOperand (.addr c.toAddr) = .ok (x.andThen (fun r => r.op i c)).toOperand := by
+  cases x with
+  | rect r =>
+    obtain ⟨w, s, l⟩ := hx r rfl
+    exact combine_toAddr i r c w hc s l lc
+  | null => rfl
+  | value => rfl
+
+theorem chainR (i : Bool) (a : Rect) (y : Res) (ha : a.WF) (la : a.c2 ≤ COL_LIMIT)
+    (hy : ∀ r, y = .rect r → r.WF ∧ a.sheet = r.sheet ∧ r.c2 ≤ COL_LIMIT) :
+    Operand.combine i (.addr a.toAddr) y.toOperand = .ok (y.andThen (fun r => a.op i r)).toOperand := by
+  cases y with
+  | rect r =>
+    obtain ⟨w, s, l⟩ := hy r rfl
+    exact combine_toAddr i a r ha w s la l
+  | null => rfl
+  | value => rfl
+
+/-- associativity at the level of the operators themselves (`Operand.combine` = `&` / `**` on address objects and
+    error values): three addresses of one sheet, error intermediates propagating -/
+theorem C11_operand_assoc (i : Bool) (a b c : Rect) (ha : a.WF) (hb : b.WF) (hc : c.WF) (hab : a.sheet = b.sheet)
+    (hbc : b.sheet = c.sheet) (la : a.c2 ≤ COL_LIMIT) (lb : b.c2 ≤ COL_LIMIT) (lc : c.c2 ≤ COL_LIMIT) :
+    (Operand.combine i (.addr a.toAddr) (.addr b.toAddr)).bind (fun x => Operand.combine i x (.addr c.toAddr)) =
+    (Operand.combine i (.addr b.toAddr) (.addr c.toAddr)).bind (fun y => Operand.combine i (.addr a.toAddr) y) := by
+  have s1 := op_spec i a b ha hb hab la lb
+  have s2 := op_spec i b c hb hc hbc lb lc
+  rw [combine_toAddr i a b ha hb hab la lb, combine_toAddr i b c hb hc hbc lb lc]
+  simp only [Except.bind]
+  rw [chainL i _ c hc lc (fun r hr => ⟨(s1.2 r hr).1, (s1.2 r hr).2.1.trans (hab.trans hbc), (s1.2 r hr).2.2.2⟩),
+      chainR i a _ ha la (fun r hr => ⟨(s2.2 r hr).1, hab.trans (s2.2 r hr).2.1.symm, (s2.2 r hr).2.2.2⟩)]
+  congr 2
+  cases i
+  · exact C11_union_assoc a b c ha hb hc hab hbc
+  · exact C11_inter_assoc a b c ha hb hc hab hbc
+
+/-! ### "offsets wrap at the sheet limits (16384 columns, 1048576 rows)" -/
+
+/-- any offset of any cell lands inside the sheet -/
+theorem C11_offset_range (c : Cell) (ri ci : Int) :
+    1 ≤ (c.offset ri ci).col ∧ (c.offset ri ci).col ≤ 16384 ∧
+    1 ≤ (c.offset ri ci).row ∧ (c.offset ri ci).row ≤ 1048576 ∧ (c.offset ri ci).sheet = c.sheet := by
+  have h1 := incCol_le c.col ci
+  have h2 := incRow_le c.row ri
+  simp only [Cell.offset]
+  unfold MAX_COL Gen.maxCol at h1
+  unfold MAX_ROW Gen.maxRow at h2
+  refine ⟨by omega, by omega, by omega, by omega, trivial⟩
+
+/-- the period of the wrap-around is exactly the sheet size, in both directions and any number of times -/
+theorem C11_offset_period (c : Cell) (ri ci k l : Int) :
+    c.offset (ri + k * 1048576) (ci + l * 16384) = c.offset ri ci := by
+  simp only [Cell.offset, Cell.mk.injEq, true_and, incCol, incRow, MAX_COL, MAX_ROW, Gen.maxCol, Gen.maxRow]
+  omega
+
+/-- offsets add up (for every starting cell, in or out of the sheet) -/
+theorem C11_offset_add (c : Cell) (ri ci rj cj : Int) :
+    (c.offset ri ci).offset rj cj = c.offset (ri + rj) (ci + cj) := by
+  simp only [Cell.offset, Cell.mk.injEq, true_and, incCol, incRow, MAX_COL, MAX_ROW, Gen.maxCol, Gen.maxRow]
+  omega
+
+/-- a zero offset of a cell of the sheet is the cell -/
+theorem C11_offset_zero (c : Cell) (hc : 1 ≤ c.col ∧ c.col ≤ 16384) (hr : 1 ≤ c.row ∧ c.row ≤ 1048576) :
+    c.offset 0 0 = c := by
+  obtain ⟨s, col, row⟩ := c
+  simp only [Cell.offset, Cell.mk.injEq, true_and, incCol, incRow, MAX_COL, MAX_ROW, Gen.maxCol, Gen.maxRow]
+  simp only at hc hr
+  omega
+
+/-- at the boundary: one past the last column/row is the first, one before the first is the last -/
+theorem C11_offset_wrap_boundary :
+    incCol 16384 1 = 1 ∧ incCol 1 (-1) = 16384 ∧ incRow 1048576 1 = 1 ∧ incRow 1 (-1) = 1048576 := by decide
+
+/-! ### non-vacuity: concrete instances of the hypotheses -/
+
+example : (⟨[], 2, 2, 3, 4⟩ : Rect).WF := by decide
+example : (⟨[], 2, 2, 3, 4⟩ : Rect).inter ⟨[], 3, 1, 5, 2⟩ = .rect ⟨[], 3, 2, 3, 2⟩ := by decide
+example : (⟨[], 1, 1, 1, 1⟩ : Rect).inter ⟨[], 2, 2, 2, 2⟩ = .null := by decide
+example : (⟨[], 1, 1, 1, 1⟩ : Rect).union ⟨[], 3, 3, 3, 3⟩ = .rect ⟨[], 1, 1, 3, 3⟩ := by decide
+example : Addr.Printable ⟨true, ⟨"My Sheet".toList, 26, 9, 27, 10⟩⟩ := ⟨by decide, by decide, by decide, by decide, by decide⟩
+example : ExcelSheet "Bob's sheet".toList ∧ '!' ∉ "Bob's sheet".toList := by unfold ExcelSheet; decide
+example : (⟨true, ⟨"Bob's sheet".toList, 26, 9, 27, 10⟩⟩ : Addr).quotedAddress = "'Bob''s sheet'!Z9:AA10".toList := by
+  decide
+example : colLetters 16384 = "XFD".toList ∧ colLetters 703 = "AAA".toList ∧ colLetters 702 = "ZZ".toList := by decide
+
+end Pycel.Addr
